@@ -14,6 +14,13 @@ contains an image-sequence video whose frames differ in size: every frame carrie
 height/width, not the video-level shape), followed by exactly one end marker and nothing after it; with a read fault at k: the frames before
 k, then exactly one marker.  Consumer: same frames in the same order, full batches except
 the last, generator terminates, reader thread finished, queue empty, no deadlock.
+
+History class `history=abandoned-then-complete` (sampled + os-threads parts): before the judged run, the same process
+performs a run 1 with its own new reader / queue / consumer whose consumer takes k >= 1 batches from
+`_predict_generator` and then closes (or drops) the generator before it has seen the end marker; run 1's buffer has room
+for all its items, so its reader can end on its own.  Run 1 is judged only for "abandoning raises nothing, no deadlock,
+reader thread ends"; run 2 (all new objects) must satisfy every clause above - "every frame of the requested range" holds
+for every run of a process, not only the first.
 """
 
 import itertools
@@ -32,7 +39,10 @@ RULE = (
     "BaseException subclass) plus either an explicit choice sequence (sampled part) or the instruction to "
     "enumerate every schedule by DFS over the choice points (exhaustive parts; each schedule is one "
     "evaluation); non-trivial = the schedule(s) contain a put that blocked on a full queue and a get that "
-    "blocked on an empty queue, or a fault; distinct by serialised case"
+    "blocked on an empty queue, or a fault; optionally (sampled and os-threads parts) a two-run history: first a run with "
+    "its own reader/consumer that is abandoned after k >= 1 batches (generator closed or dropped, buffer large enough for the "
+    "reader to end), then the case itself as a complete run 2 that is judged in full (non-trivial when run 2 has >= 1 frame); "
+    "distinct by serialised case"
 )
 ASSUMPTIONS = [
     "pre-emption is modelled at the queue/read/start/join yield points only; atomicity of queue.Queue and CPython internals is trusted",
@@ -41,6 +51,11 @@ ASSUMPTIONS = [
     "max_height/max_width of the consumer are set to the maximum over the videos, as a training config records them",
     "a mixed-size video is an image sequence (list of PNG files of different sizes): sleap-io returns each image at its own "
     "size and the predictor batches them through the size matcher; max_height/max_width are then the maximum over its frames",
+    "histories: only 'abandoned with room in the buffer for every remaining item' is generated (capacity >= frames + 1 or unbounded); "
+    "what happens to a reader abandoned on a full buffer is not part of the property; 'dropping' the generator relies on CPython "
+    "finalising a suspended generator as soon as its last reference goes away",
+    "the harness keeps no mutable module/class-level state between cases (the PNG pool is written once and only read), so a case "
+    "behaves the same whatever ran before it in the process on the unchanged tree",
 ]
 
 N_SRC = 6  # frames per source video
@@ -48,6 +63,7 @@ SIZES = [(8, 12), (10, 6)]  # (H, W) of the uniform-size videos 0 / 1
 MIXED = 2  # pool video 2: an image sequence whose frames differ in size
 MIX_SIZES = [(6, 10), (9, 7), (4, 14)]  # frame i of video 2 has MIX_SIZES[i % 3]; the FIRST image (= video.shape) is not the largest
 N_VID = 3
+HISTORY = "abandoned-then-complete"  # run 1 is abandoned by its consumer, run 2 (new reader + consumer) is complete
 OS_ASSET_HW = (384, 384)  # frame size of the two repo test assets used by the os-threads part
 _POOL = {}
 
@@ -251,9 +267,27 @@ def run_schedule(cfg, choices):
     }
     records = []
     consumer_exc = None
+    abandon = cfg.get("abandon")  # run 1 of a history: take k batches, then close / drop the generator
     try:
-        for out in pred._predict_generator():
-            records.append(out)
+        if abandon is None:
+            for out in pred._predict_generator():
+                records.append(out)
+        else:
+            gen = pred._predict_generator()
+            try:
+                for _ in range(abandon["after"]):
+                    records.append(next(gen))
+            except StopIteration:
+                # k * batch <= number of requested frames: up to here run 1 is a normal run and owes k full batches
+                fails.append(("consumer:frames", f"generator ended after {len(records)} batches, {abandon['after']} full batches of {cfg['batch']} were due ({len(exp_items)} frames requested)"))
+                gen = None
+            if gen is not None and abandon["how"] == "close":
+                gen.close()
+            else:
+                del gen  # CPython finalises the suspended generator at once (GeneratorExit at its yield)
+            # the buffer has room for every remaining item, so the reader can end on its own; wait for it
+            # (a scheduled join: hands the baton to the reader until it is done)
+            reader.join()
     except sched.Deadlock:
         fails.append(("deadlock", f"no runnable thread: events tail {S.events[-8:]}"))
     except sched.StepLimit:
@@ -277,6 +311,11 @@ def run_schedule(cfg, choices):
     if S.deadlock and not fails:
         fails.append(("deadlock", f"scheduler stopped: events tail {S.events[-8:]}"))
     if fails:
+        return fails, facts, S.taken
+    if abandon is not None:
+        # an abandoned run is judged only for: no exception, no deadlock (above) and the reader thread has ended
+        if threading.Thread.is_alive(reader):
+            fails.append(("reader-alive", "reader thread of the abandoned run still alive although the buffer had room for all its items"))
         return fails, facts, S.taken
 
     # ---- oracle on the producer trace
@@ -348,15 +387,33 @@ def evaluate(case):
         "fault=" + (cfg["fault"]["kind"] if cfg.get("fault") else "none"),
     )
     stats = {"n": 0, "nontriv": 0}
+    hist = case.get("history")
+    if hist:
+        # a two-run history in this process: run 1 (its own reader / queue / consumer / scheduler) is abandoned
+        # after k batches, run 2 (`cfg`, all new objects) is a normal run and must satisfy every clause
+        first = hist["first"]
+        res.cls(
+            f"history={HISTORY}",
+            f"history={HISTORY}:run1={first['reader']}->run2={cfg['reader']}",
+            f"history={HISTORY}:how={first['abandon']['how']}",
+            f"history={HISTORY}:run2-frames={'0' if not deliv else '>=1'}",
+        )
 
     def judge(choices):
+        if hist:
+            fails1, _, _ = run_schedule(hist["first"], hist["first_choices"])
+            for b, m in fails1:
+                res.fail(f"history={HISTORY}:run1-abandon:{b}", f"{m} | run1={hist['first']} choices={hist['first_choices']}")
         fails, facts, taken = run_schedule(cfg, choices)
         stats["n"] += 1
         beyond = cfg["reader"] == "video" and cfg.get("end") is not None and cfg["end"] > N_SRC
-        if (facts["blocked_put"] > 0 and facts["blocked_get"] > 0) or cfg.get("fault") or beyond:
+        if (facts["blocked_put"] > 0 and facts["blocked_get"] > 0) or cfg.get("fault") or beyond or (hist and deliv):
             stats["nontriv"] += 1
         for b, m in fails:
-            res.fail(b, f"{m} | cfg={cfg} choices={list(choices)}")
+            if hist:
+                res.fail(f"history={HISTORY}:run2:{b}", f"{m} | cfg={cfg} choices={list(choices)} after abandoned run1={hist['first']} choices={hist['first_choices']}")
+            else:
+                res.fail(b, f"{m} | cfg={cfg} choices={list(choices)}")
         return taken
 
     if case.get("exhaustive"):
@@ -493,50 +550,77 @@ def strategy():
             fault = {"at": draw(st.sampled_from(idxs)), "kind": draw(st.sampled_from(["exception", "base"]))}
         cfg["fault"] = fault
         choices = draw(st.lists(st.integers(0, 2), max_size=40))
-        return {"cfg": cfg, "choices": choices}
+        out = {"cfg": cfg, "choices": choices}
+        if draw(st.integers(0, 4)) == 0:
+            first = draw(_abandoned_first(st, reader))
+            out["history"] = {"kind": HISTORY, "first": first, "first_choices": draw(st.lists(st.integers(0, 2), max_size=12))}
+        return out
 
     return case()
+
+
+def _abandoned_first(st, reader2):
+    """Strategy: configuration of an ABANDONED run (run 1 of a history) for the scheduler parts.  n >= 1 frames, no fault,
+    a buffer with room for all n frames + the marker (so the abandoned reader can always end on its own: a reader
+    abandoned with a full buffer stays blocked on put, which the property does not speak about), batch b <= n and the
+    consumer leaves after k batches with k * b <= n, i.e. before it has seen the end marker."""
+
+    @st.composite
+    def first(draw):
+        # mostly the reader class of run 2 (state shared between the readers of ONE class is the likely leak)
+        same = draw(st.sampled_from([True, True, True, False]))
+        r1 = reader2 if same else ("labels" if reader2 == "video" else "video")
+        n = draw(st.integers(1, 4))
+        batch = draw(st.integers(1, n))
+        after = draw(st.integers(1, n // batch))
+        cap = draw(st.sampled_from([n + 1, n + 1, n + 2, 0]))
+        how = draw(st.sampled_from(["close", "close", "drop"]))
+        if r1 == "video":
+            start = draw(st.integers(0, N_SRC - n))
+            cfg = {"reader": "video", "start": start, "end": start + n, "cap": cap, "batch": batch}
+            if draw(st.booleans()):
+                cfg["vid"] = MIXED
+        else:
+            frames = draw(st.lists(st.tuples(st.integers(0, N_VID - 1), st.integers(0, N_SRC - 1)), min_size=n, max_size=n, unique=True))
+            cfg = {"reader": "labels", "frames": [list(f) for f in frames], "cap": cap, "batch": batch}
+        cfg["fault"] = None
+        cfg["abandon"] = {"after": after, "how": how}
+        return cfg
+
+    return first()
 
 
 def evaluate_os(case):
     """Smoke layer: un-instrumented path (from_filename, real Queue, OS scheduling); sources: the repo's mp4 / package
     assets and the pool's mixed-size image sequence (list of PNGs) / three-video package; every record's orig_size is checked."""
-    import torch
-    from sleap_nn.data.providers import LabelsReader, VideoReader
-    from sleap_nn.inference.predictors import SingleInstancePredictor
-
     res = Result()
     res.cls(f"os:reader={case['reader']}", f"os:cap={case['cap']}")
-    if case["reader"] == "video":
-        reader = VideoReader.from_filename("/repo/tests/assets/centered_pair_small.mp4", case["cap"], case["start"], case["end"])
-        expected = [(0, i) for i in range(case["start"], case["end"])]
-        exp_hw = [OS_ASSET_HW] * len(expected)
-        hw = reader.max_height_and_width
-    elif case["reader"] == "video-mixed":
-        # image sequence with frames of different sizes, given as a list of files (a range beyond it ends at the read failure)
-        res.cls("os:mixed-size-video:video")
-        reader = VideoReader.from_filename(list(_pool()["paths"][MIXED]), case["cap"], case["start"], case["end"])
-        expected = [(0, i) for i in range(case["start"], min(case["end"], N_SRC))]
-        exp_hw = [_frame_hw(MIXED, i) for _, i in expected]
-        hw = _video_max_hw(MIXED)
-    elif case["reader"] == "labels-pool":
-        # the pool's package file: three videos (one of mixed frame sizes), every frame labeled, in file order
-        res.cls("os:mixed-size-video:labels")
-        reader = LabelsReader.from_filename(_pool()["pkg"], case["cap"])
-        expected = [(v, i) for v in range(N_VID) for i in range(N_SRC)]
-        exp_hw = [_frame_hw(v, i) for v, i in expected]
-        hw = (max(_video_max_hw(v)[0] for v in range(N_VID)), max(_video_max_hw(v)[1] for v in range(N_VID)))
-    else:
-        reader = LabelsReader.from_filename("/repo/tests/assets/minimal_instance.pkg.slp", case["cap"])
-        expected = [(reader.labels.videos.index(lf.video), lf.frame_idx) for lf in reader.labels]
-        exp_hw = [OS_ASSET_HW] * len(expected)
-        hw = reader.max_height_and_width
-    pred = SingleInstancePredictor()
-    pred.inference_model = lambda ex: [{"frame_idx": ex["frame_idx"], "video_idx": ex["video_idx"], "orig_size": ex["orig_size"]}]
-    pred.pipeline = reader
-    pred.preprocess = False
-    pred.instances_key = False
-    pred.preprocess_config = {"batch_size": case["batch"], "max_height": hw[0], "max_width": hw[1], "is_rgb": False, "scale": 1.0, "max_stride": 1}
+    hist = case.get("history")
+    tag = f"os-threads:history={HISTORY}:run2" if hist else "os-threads"
+    if hist:
+        first = hist["first"]
+        res.cls(
+            f"os:history={HISTORY}",
+            f"os:history={HISTORY}:run1={_os_class(first['reader'])}->run2={_os_class(case['reader'])}",
+            f"os:history={HISTORY}:how={first['abandon']['how']}",
+        )
+        verdict = _os_abandoned_run(first)
+        if verdict == "timeout":
+            res.rejected = True
+            res.cls("os:timeout-inconclusive")
+            return res
+        if verdict is not None:
+            kind, detail = verdict
+            if kind == "exc":
+                b = runner.exc_bucket(f"os-threads:history={HISTORY}:run1-abandon", detail)
+                if b is None:
+                    raise detail
+                res.fail(b, f"{type(detail).__name__}: {str(detail)[:200]} (run1={first})")
+            else:
+                res.fail(f"os-threads:history={HISTORY}:run1-abandon:{kind}", f"{detail} (run1={first})")
+            # run 2 is still judged: its clauses do not depend on how run 1 went
+    reader, expected, exp_hw, hw = _os_source(case, res)
+    pred = _os_predictor(reader, case["batch"], hw)
     out = {}
 
     def consume():
@@ -554,14 +638,15 @@ def evaluate_os(case):
         res.cls("os:timeout-inconclusive")
         return res
     if "exc" in out:
-        b = runner.exc_bucket("os-threads", out["exc"])
+        b = runner.exc_bucket(tag, out["exc"])
         if b is None:
             raise out["exc"]
         res.fail(b, str(out["exc"])[:200])
         return res
+    ctx = f"{case}" if not hist else f"{ {k: v for k, v in case.items() if k != 'history'} } after abandoned run1={hist['first']}"
     got = [(int(v), int(f)) for r in out["records"] for v, f in zip(r["video_idx"], r["frame_idx"])]
     if got != expected:
-        res.fail("os-threads:frames", f"records {got} expected {expected} ({case})")
+        res.fail(f"{tag}:frames", f"records {got} expected {expected} ({ctx})")
     else:
         got_hw = [tuple(int(x) for x in sz) for r in out["records"] for sz in r["orig_size"]]
         bad = [k for k in range(len(expected)) if got_hw[k] != tuple(exp_hw[k])]
@@ -569,17 +654,109 @@ def evaluate_os(case):
             mixed = case["reader"] in ("video-mixed", "labels-pool")
             k = bad[0]
             res.fail(
-                "os-threads:orig-size" + (":mixed-size-video" if mixed else ""),
-                f"{len(bad)} records with a wrong orig_size, first: frame {expected[k]} carries {got_hw[k]}, its own size is {tuple(exp_hw[k])} ({case})",
+                f"{tag}:orig-size" + (":mixed-size-video" if mixed else ""),
+                f"{len(bad)} records with a wrong orig_size, first: frame {expected[k]} carries {got_hw[k]}, its own size is {tuple(exp_hw[k])} ({ctx})",
             )
     if any(len(r["frame_idx"]) > case["batch"] for r in out["records"]):
-        res.fail("os-threads:batch-size", f"batch larger than {case['batch']}")
+        res.fail(f"{tag}:batch-size", f"batch larger than {case['batch']}")
     if reader.is_alive():
-        res.fail("os-threads:reader-alive", "reader thread alive after the generator finished")
+        res.fail(f"{tag}:reader-alive", "reader thread alive after the generator finished")
     if not reader.frame_buffer.empty():
-        res.fail("os-threads:queue-not-empty", "items left in the buffer")
-    res.nontrivial = len(expected) > case["cap"] > 0
+        res.fail(f"{tag}:queue-not-empty", "items left in the buffer")
+    res.nontrivial = len(expected) > case["cap"] > 0 or bool(hist and expected)
     return res
+
+
+def _os_class(reader):
+    """Reader CLASS of an os-threads source kind."""
+    return "VideoReader" if reader.startswith("video") else "LabelsReader"
+
+
+def _os_predictor(reader, batch, hw):
+    from sleap_nn.inference.predictors import SingleInstancePredictor
+
+    pred = SingleInstancePredictor()
+    pred.inference_model = lambda ex: [{"frame_idx": ex["frame_idx"], "video_idx": ex["video_idx"], "orig_size": ex["orig_size"]}]
+    pred.pipeline = reader
+    pred.preprocess = False
+    pred.instances_key = False
+    pred.preprocess_config = {"batch_size": batch, "max_height": hw[0], "max_width": hw[1], "is_rgb": False, "scale": 1.0, "max_stride": 1}
+    return pred
+
+
+def _os_abandoned_run(first):
+    """Run 1 of a history on real threads: new reader + consumer, the consumer takes `after` batches and closes / drops the
+    generator; the buffer has room for every item, so the reader ends on its own and is joined.  Returns None (fine),
+    "timeout" (inconclusive) or (kind, detail) - judged: abandoning raises nothing and the reader thread ends."""
+    reader, expected, _, hw = _os_source(first, None)
+    if not (0 < first["batch"] * first["abandon"]["after"] <= len(expected) < first["cap"]):
+        raise AssertionError(f"harness: abandoned run outside its construction (frames {len(expected)}): {first}")
+    pred = _os_predictor(reader, first["batch"], hw)
+    out = {}
+
+    def go():
+        try:
+            gen = pred._predict_generator()
+            for j in range(first["abandon"]["after"]):
+                try:
+                    next(gen)
+                except StopIteration:
+                    # k * batch <= number of frames: up to here run 1 is a normal run and owes k full batches
+                    out["short"] = f"generator ended after {j} batches, {first['abandon']['after']} full batches of {first['batch']} were due ({len(expected)} frames)"
+                    break
+            if first["abandon"]["how"] == "close":
+                gen.close()
+            else:
+                del gen  # CPython finalises the suspended generator at once (GeneratorExit at its yield)
+            reader.join()
+        except Exception as e:  # noqa: BLE001
+            out["exc"] = e
+
+    th = threading.Thread(target=go, daemon=True)
+    th.start()
+    th.join(timeout=300)
+    if th.is_alive():
+        return "timeout"
+    if "exc" in out:
+        return ("exc", out["exc"])
+    if reader.is_alive():
+        return ("reader-alive", "reader thread of the abandoned run alive after join")
+    if "short" in out:
+        return ("frames", out["short"])
+    return None
+
+
+def _os_source(case, res):
+    """Reader (new objects), expected (video, frame) list, expected own sizes and max (H, W) of an os-threads source."""
+    from sleap_nn.data.providers import LabelsReader, VideoReader
+
+    if case["reader"] == "video":
+        reader = VideoReader.from_filename("/repo/tests/assets/centered_pair_small.mp4", case["cap"], case["start"], case["end"])
+        expected = [(0, i) for i in range(case["start"], case["end"])]
+        exp_hw = [OS_ASSET_HW] * len(expected)
+        hw = reader.max_height_and_width
+    elif case["reader"] == "video-mixed":
+        # image sequence with frames of different sizes, given as a list of files (a range beyond it ends at the read failure)
+        if res is not None:
+            res.cls("os:mixed-size-video:video")
+        reader = VideoReader.from_filename(list(_pool()["paths"][MIXED]), case["cap"], case["start"], case["end"])
+        expected = [(0, i) for i in range(case["start"], min(case["end"], N_SRC))]
+        exp_hw = [_frame_hw(MIXED, i) for _, i in expected]
+        hw = _video_max_hw(MIXED)
+    elif case["reader"] == "labels-pool":
+        # the pool's package file: three videos (one of mixed frame sizes), every frame labeled, in file order
+        if res is not None:
+            res.cls("os:mixed-size-video:labels")
+        reader = LabelsReader.from_filename(_pool()["pkg"], case["cap"])
+        expected = [(v, i) for v in range(N_VID) for i in range(N_SRC)]
+        exp_hw = [_frame_hw(v, i) for v, i in expected]
+        hw = (max(_video_max_hw(v)[0] for v in range(N_VID)), max(_video_max_hw(v)[1] for v in range(N_VID)))
+    else:
+        reader = LabelsReader.from_filename("/repo/tests/assets/minimal_instance.pkg.slp", case["cap"])
+        expected = [(reader.labels.videos.index(lf.video), lf.frame_idx) for lf in reader.labels]
+        exp_hw = [OS_ASSET_HW] * len(expected)
+        hw = reader.max_height_and_width
+    return reader, expected, exp_hw, hw
 
 
 def strategy_os():
@@ -589,15 +766,55 @@ def strategy_os():
     def case(draw):
         reader = draw(st.sampled_from(["video", "video", "labels", "video-mixed", "video-mixed", "labels-pool"]))
         start = draw(st.integers(0, 6))
-        return {
+        out = {
             "reader": reader,
             "cap": draw(st.integers(1, 4)),
             "batch": draw(st.integers(1, 4)),
             "start": start,
             "end": draw(st.integers(start, start + 7)),
         }
+        if draw(st.integers(0, 2)) == 0:
+            # two-run history: an abandoned run 1 (new reader + consumer), then this case as the complete run 2
+            out["history"] = {"kind": HISTORY, "first": draw(_abandoned_first_os(st, reader))}
+        return out
 
     return case()
+
+
+N_LABELS_ASSET = 1  # labeled frames in /repo/tests/assets/minimal_instance.pkg.slp (checked against the file in _os_abandoned_run)
+
+
+def _abandoned_first_os(st, reader2):
+    """Strategy: source / capacity / batch of an ABANDONED run on real threads.  n >= 1 frames, a buffer with room for
+    all n frames + the marker (capacity >= n + 1: on real threads a reader abandoned with a full buffer would stay blocked on
+    put for ever), batch b <= n, the consumer leaves after k batches with k * b <= n (before it has seen the marker)."""
+
+    @st.composite
+    def first(draw):
+        # mostly the reader CLASS of run 2 (state shared between the readers of one class is the likely leak)
+        same = draw(st.sampled_from([True, True, True, False]))
+        video = reader2.startswith("video") if same else not reader2.startswith("video")
+        kind = draw(st.sampled_from(["video", "video-mixed"] if video else ["labels", "labels-pool"]))
+        if kind == "video":
+            n = draw(st.integers(1, 4))
+            start = draw(st.integers(0, 20))
+        elif kind == "video-mixed":
+            n = draw(st.integers(1, 4))
+            start = draw(st.integers(0, N_SRC - n))
+        else:
+            n = N_LABELS_ASSET if kind == "labels" else N_VID * N_SRC  # these sources always deliver every labeled frame
+            start = 0
+        batch = draw(st.integers(1, min(n, 4)))
+        return {
+            "reader": kind,
+            "cap": n + 1 + draw(st.integers(0, 2)),
+            "batch": batch,
+            "start": start,
+            "end": start + n,
+            "abandon": {"after": draw(st.integers(1, min(n // batch, 3))), "how": draw(st.sampled_from(["close", "close", "drop"]))},
+        }
+
+    return first()
 
 
 def _setup():
